@@ -306,6 +306,35 @@ T('C01', 'twin-literal-codec-alias', PK, _LIT_T, "            return self._conte
 T('C01', 'twin-literal-format-local', PK, "        if self.format == 't':\n" + _LIT_T + "\n        if self.format == 'u':\n            return self._contents.decode('utf-8')\n",
   "        fmt = self.format\n        if fmt == 'u':\n            return self._contents.decode('utf-8')\n        elif fmt == 't':\n            return self._contents.decode('latin-1')\n")
 
+# ---- fourth round: selectors through filter / itertools.filterfalse / map with a predicate method of the class
+TW('C17', 'twin-C17-ref10', 'C17-ref10')
+TW('C01', 'twin-C17-ref10', 'C17-ref10')
+_IMP = "import collections\nimport operator\n"
+_IMP_IT = "import collections\nimport itertools\nimport operator\n"
+_ISBAD = "\n    @staticmethod\n    def _is_bad(sigsub):\n        return sigsub.issues and sigsub.issues.causes_signature_verify_to_fail\n\n    def __init__(self):\n        \"\"\"\n        Returned by :py:meth:`.PGPKey.verify`\n"
+_INIT = "\n    def __init__(self):\n        \"\"\"\n        Returned by :py:meth:`.PGPKey.verify`\n"
+_F_GOOD = "        for sigsub in itertools.filterfalse(self._is_bad, self._subjects):\n            yield sigsub"
+_F_BAD = "        for sigsub in filter(self._is_bad, self._subjects):\n            yield sigsub"
+for _p in ('C01', 'C17'):
+    _r = 'C01.4' if _p == 'C01' else 'C17.2'
+    T(_p, 'twin-selectors-filter-lambda', TY, _GOOD, "        return filter(lambda entry: not (entry.issues and entry.issues.causes_signature_verify_to_fail), self._subjects)",
+      more=[(TY, _BAD, "        yield from filter(SignatureVerification._is_bad, self._subjects)"), (TY, _INIT, _ISBAD)])
+    M(_p, 'filter-where-filterfalse-meant', TY, _GOOD, _F_BAD, _r, more=[(TY, _BAD, _F_BAD), (TY, _INIT, _ISBAD)])
+    M(_p, 'predicate-negated-in-good-only', TY, _GOOD, "        for sigsub in itertools.filterfalse(lambda s: not self._is_bad(s), self._subjects):\n            yield sigsub", _r,
+      more=[(TY, _BAD, _F_BAD), (TY, _INIT, _ISBAD), (TY, _IMP, _IMP_IT)])
+    M(_p, 'predicate-ignores-verdict-predicate', TY, _GOOD, _F_GOOD, _r,
+      more=[(TY, _BAD, _F_BAD), (TY, _INIT, _ISBAD.replace("sigsub.issues and sigsub.issues.causes_signature_verify_to_fail", "bool(sigsub.issues)")), (TY, _IMP, _IMP_IT)])
+    M(_p, 'bool-demorgan-one-negation-lost', TY, _BOOL,
+      "        return not any(\n            sigsub.issues is not SecurityIssues.OK\n            and (not sigsub.issues or not sigsub.issues.causes_signature_verify_to_fail)\n            for sigsub in self._subjects\n        )", _r)
+    M(_p, 'bool-map-any-bad-inverted', TY, _BOOL, "        return any(map(self._is_bad, self._subjects))", _r, more=[(TY, _INIT, _ISBAD)])
+    T(_p, 'twin-bool-map-no-bad', TY, _BOOL, "        return not any(map(self._is_bad, self._subjects))", more=[(TY, _INIT, _ISBAD)])
+
+# ---- trailer length written as len(<four fixed octets>) + len(<hashed area>) (interp: len() of fixed-width items folds)
+TW('C01', 'twin-C05-ref9', 'C05-ref9')
+M('C01', 'trailer-length-of-hashed-area-only', PGP, "        hlen = len(hcontext)\n", "        hlen = len(hcontext) - 4\n", 'C01.1')
+M('C01', 'trailer-length-fixed-octets-miscounted', PGP, "        hcontext.append(self.hash_algorithm)\n        hcontext += self._signature.subpackets.__hashbytearray__()\n        hlen = len(hcontext)\n",
+  "        hcontext.append(self.hash_algorithm)\n        fixed = len(hcontext[:3])\n        hashed = self._signature.subpackets.__hashbytearray__()\n        hcontext += hashed\n        hlen = fixed + len(hashed)\n", 'C01.1')
+
 # ---- further spellings of the same functions (generalisation guards)
 T('C17', 'twin-pred-len-list', CO, _PRED,
   "        hits = [f for f in (SecurityIssues.WrongSig, SecurityIssues.Expired, SecurityIssues.Disabled, SecurityIssues.Invalid, SecurityIssues.NoSelfSignature) if f & self]\n        return len(hits) > 0")
